@@ -132,6 +132,10 @@ class Exec(object):
         return unwrap(v)
 
     def truth(self, v, st):
+        v0 = self.deref(v, st)
+        if isinstance(v0, SymSet):
+            x = z3.Const('x!nz', v0.has.sort().domain())
+            return z3.Exists([x], z3.Select(v0.has, x))        # a set is true when it has a member
         v = self.deref(v, st)
         if isinstance(v, Sc):
             if v.py == 'bool': return v.z
@@ -424,6 +428,13 @@ class ExprMixin(object):
             return [(Tup(l.items + r.items), st)]
         if isinstance(op, ast.Add) and isinstance(l, PyList) and isinstance(r, PyList):
             return [(st.new_cell(PyList(l.items + r.items)), st)]
+        if isinstance(l, SymSet) and isinstance(r, SymSet) and isinstance(op, (ast.Sub, ast.BitOr, ast.BitAnd, ast.BitXor)):
+            # set algebra, pointwise on the membership functions
+            has = fresh(l.has.sort(), 'setop.has'); x = z3.Const('x!so', l.has.sort().domain())
+            a, b = z3.Select(l.has, x), z3.Select(r.has, x)
+            body = {ast.Sub: z3.And(a, z3.Not(b)), ast.BitOr: z3.Or(a, b), ast.BitAnd: z3.And(a, b), ast.BitXor: z3.Xor(a, b)}[type(op)]
+            st.pc.append(z3.ForAll([x], z3.Select(has, x) == body, patterns=[z3.Select(has, x)]))
+            return [(st.new_cell(SymSet(has, l.kty)), st)]
         if isinstance(l, Sc) and isinstance(r, Sc):
             if isinstance(op, (ast.Div, ast.Mod, ast.FloorDiv)):
                 # ZeroDivisionError site (int and float alike) unless the divisor is a non-zero literal
@@ -966,6 +977,16 @@ def _has_quantifier(f):
         stack.extend(x.children())
     return False
 
+def _order_after_insert(d, k):
+    """insertion order after d[k] = v: unchanged for a key that is present, the key appended otherwise"""
+    return None if d.order is None else z3.If(z3.Select(d.has, k), d.order, z3.Concat(d.order, z3.Unit(k)))
+
+def odict_wf(d):
+    """the order sequence of a dict lists exactly its keys, each once"""
+    x = z3.Const('x!od', d.kty.sort() if d.kty.kind != 'Tuple' else d.has.sort().domain()); i, j = z3.Int('i!od'), z3.Int('j!od')
+    return [z3.ForAll([x], z3.Contains(d.order, z3.Unit(x)) == z3.Select(d.has, x), patterns=[z3.Contains(d.order, z3.Unit(x)), z3.Select(d.has, x)]),
+            z3.ForAll([i, j], z3.Implies(z3.And(0 <= i, i < j, j < z3.Length(d.order)), d.order[i] != d.order[j]))]
+
 class PyRegex(V):
     """a compiled regular expression with a literal pattern"""
     def __init__(self, pattern): self.pattern = pattern
@@ -1139,7 +1160,8 @@ class StmtMixin(object):
                     d = dict(r.d); d[kd.s] = v; st.cells[recv.id] = PyDict(d); return
             if isinstance(r, SymDict):
                 kt = self.key_term(k, st)
-                st.cells[recv.id] = SymDict(z3.Store(r.has, kt, z3.BoolVal(True)), z3.Store(r.get, kt, unwrap(self.deref(v, st))), r.kty, r.vty)
+                st.cells[recv.id] = SymDict(z3.Store(r.has, kt, z3.BoolVal(True)), z3.Store(r.get, kt, self.as_fn(v, st) if r.vty.kind == 'Fn' else unwrap(self.deref(v, st))), r.kty, r.vty,
+                                            order=_order_after_insert(r, kt))
                 return
             raise Unsupported('subscript store on %r' % (r,))
         raise Unsupported('assignment target %s' % type(target).__name__)
@@ -1335,6 +1357,22 @@ class StmtMixin(object):
                 src, st = self.deref(r_it[0][0], r_it[0][1]), r_it[0][1]
             if isinstance(src, (Tup, PyList)): return self.unrolled(s, list(src.items), st)
             if isinstance(src, PyDict): return self.unrolled(s, [PyStr(k) for k in src.d], st)
+            if isinstance(src, SymDict) and src.order is not None:
+                has_ = src.has
+                src = SeqV(src.order, src.kty)          # iterating a dict yields its keys in insertion order (A4)
+                src.member_of = has_                    # every key listed is a key of the dict (instances added where elements are taken)
+            if isinstance(src, SymSet):
+                # iterating a set: each member once, in an order nothing may depend on (an unspecified listing of the members)
+                lst = keys_list_fn(src.kty)(src.has)
+                x = z3.Const('x!it', src.has.sort().domain()); i_, j_ = z3.Int('i!it'), z3.Int('j!it')
+                st.pc += [z3.ForAll([x], z3.Contains(lst, z3.Unit(x)) == z3.Select(src.has, x), patterns=[z3.Contains(lst, z3.Unit(x))]),
+                          z3.ForAll([i_], z3.Implies(z3.And(0 <= i_, i_ < z3.Length(lst)), z3.Select(src.has, lst[i_])), patterns=[lst[i_]]),
+                          z3.ForAll([i_, j_], z3.Implies(z3.And(0 <= i_, i_ < j_, j_ < z3.Length(lst)), lst[i_] != lst[j_]))]
+                pos_ = z3.Function('position_in_' + str(lst.decl().name()), src.has.sort(), src.has.sort().domain(), IntS)      # position of a member in the listing of THIS set
+                pos = lambda x_: pos_(src.has, x_)
+                st.pc.append(z3.ForAll([x], z3.Implies(z3.Select(src.has, x), z3.And(0 <= pos(x), pos(x) < z3.Length(lst), lst[pos(x)] == x)), patterns=[z3.Select(src.has, x)]))
+                self.reg.assume('A4: iterating a set yields each member exactly once; the order is unspecified (an uninterpreted listing of the members)')
+                src = SeqV(lst, src.kty)
             if isinstance(src, SeqV):
                 lo, hi = z3.IntVal(0), z3.Length(src.z)
                 def elem(k, st_, src=src):
@@ -1394,6 +1432,18 @@ class StmtMixin(object):
         names = set()
         for n in ast.walk(ast.Module(body=list(stmts), type_ignores=[])):
             if isinstance(n, ast.Call):
+                # a method of `self` that is under a (non-inline) contract mutates only what its contract declares (modifies)
+                c_ = None
+                if isinstance(n.func, ast.Attribute) and isinstance(n.func.value, ast.Name) and n.func.value.id == 'self' and self.fi.cls:
+                    c_ = self.reg.get(self.fi.file, '%s.%s' % (self.fi.cls, n.func.attr))
+                    if c_ is not None and (c_.inline or c_.trusted): c_ = None
+                if c_ is not None:
+                    pn = [p_ for p_ in c_.params if p_ != 'self']
+                    for a, p_ in zip(n.args, pn):
+                        if isinstance(a, ast.Name) and p_ in c_.modifies: names.add(a.id)
+                    for k in n.keywords:
+                        if isinstance(k.value, ast.Name) and k.arg in c_.modifies: names.add(k.value.id)
+                    continue
                 if isinstance(n.func, ast.Attribute) and isinstance(n.func.value, ast.Name): names.add(n.func.value.id)
                 for a in list(n.args) + [k.value for k in n.keywords]:
                     if isinstance(a, ast.Name): names.add(a.id)
@@ -1446,7 +1496,8 @@ class StmtMixin(object):
             if ty is None: raise Unsupported('loop mutates list %r of unknown element type: declare it in contract.ghost' % nm)
             return SeqV(fresh(z3.SeqSort(ty.sort()), nm), ty)
         if isinstance(v, SymDict):
-            return SymDict(fresh(v.has.sort(), nm + '.has'), fresh(v.get.sort(), nm + '.get'), v.kty, v.vty)
+            return SymDict(fresh(v.has.sort(), nm + '.has'), fresh(v.get.sort(), nm + '.get'), v.kty, v.vty,
+                           order=(fresh(v.order.sort(), nm + '.order') if v.order is not None else None))
         if isinstance(v, SymSet): return SymSet(fresh(v.has.sort(), nm + '.has'), v.kty)
         if isinstance(v, (ClassV, FuncV, ModuleV, Builtin, LocalClass)):
             return v     # names of classes/functions/modules are not re-bound in the handled subset
@@ -1485,7 +1536,8 @@ class StmtMixin(object):
                 ty = self.loop_list_types[nm]
                 kty, vty = ty.args
                 ks = self.key_sort(kty)
-                st.cells[v.id] = SymDict(z3.K(ks, z3.BoolVal(False)), fresh(z3.ArraySort(ks, vty.sort()), nm + '.get0'), kty, vty)
+                st.cells[v.id] = SymDict(z3.K(ks, z3.BoolVal(False)), fresh(z3.ArraySort(ks, vty.sort()), nm + '.get0'), kty, vty,
+                                         order=(z3.Empty(z3.SeqSort(ks)) if ty.kind == 'ODict' else None))
         # 1. initiation
         s0 = st.copy(); s0.env[idx] = Sc(lo, 'int')
         for g in inv(NS(self, s0), self.old_ns):
@@ -1617,6 +1669,7 @@ class CallMixin(object):
         if isinstance(f, Dual): f = f.fn
         if isinstance(f, Rec):      # callable object with a known class
             return self.call_method(fref, '__call__', args, kw, st, node)
+        if isinstance(f, ConstFactory): return [(f.result, st)]
         if isinstance(f, Builtin): return self.call_builtin(f.name, args, kw, st, node)
         if isinstance(f, Opt): raise Unsupported('call of an optional value')
         if isinstance(f, FuncV): return self.call_function(f.fi, args, kw, st, node=node)
@@ -1743,6 +1796,7 @@ class CallMixin(object):
         if name in ('tuple', 'list') and d and isinstance(d[0], SymKeys):
             # list(d.keys()): some listing of exactly the keys (insertion order is not modelled: the contract may only speak of membership)
             sd = d[0].d
+            if sd.order is not None: return [(SeqV(sd.order, sd.kty), st)]
             lst = keys_list_fn(sd.kty)(sd.has)
             x = z3.Const('x!keys', sd.kty.sort())
             st.pc.append(z3.ForAll([x], z3.Contains(lst, z3.Unit(x)) == z3.Select(sd.has, x), patterns=[z3.Contains(lst, z3.Unit(x))]))
@@ -1757,6 +1811,13 @@ class CallMixin(object):
             if isinstance(a, SeqV):
                 return [((a if name == 'tuple' else st.new_cell(SeqV(a.z, a.elem))), st)]
             raise Unsupported('%s(%r)' % (name, a))
+        if name == 'set' and args and isinstance(d[0], (SeqV, SymKeys)):
+            # set(list) / set(d.keys()): membership in the set is membership in the list
+            if isinstance(d[0], SymKeys): return [(st.new_cell(SymSet(d[0].d.has, d[0].d.kty)), st)]
+            a = d[0]; ks = a.z.sort().basis()
+            has = fresh(z3.ArraySort(ks, BoolS), 'set.has'); x = z3.Const('x!set', ks)
+            st.pc.append(z3.ForAll([x], z3.Select(has, x) == z3.Contains(a.z, z3.Unit(x)), patterns=[z3.Select(has, x)]))
+            return [(st.new_cell(SymSet(has, a.elem)), st)]
         if name == 'set':
             if args: raise Unsupported('set(iterable)')
             return [(st.new_cell(PySet()), st)]
@@ -1764,7 +1825,7 @@ class CallMixin(object):
             if args: 
                 a = d[0]
                 if isinstance(a, PyDict): return [(st.new_cell(PyDict(a.d)), st)]
-                if isinstance(a, SymDict): return [(st.new_cell(SymDict(a.has, a.get, a.kty, a.vty)), st)]
+                if isinstance(a, SymDict): return [(st.new_cell(SymDict(a.has, a.get, a.kty, a.vty, order=a.order)), st)]
                 raise Unsupported('dict(%r)' % (a,))
             return [(st.new_cell(PyDict(dict(kw))), st)]
         if name == 'sorted' and isinstance(d[0], SymSet):
@@ -1914,12 +1975,12 @@ class CallMixin(object):
                 DS = r.vty.sort()
                 empty = DS.mkdict(z3.K(r.vty.args[0].sort(), z3.BoolVal(False)), fresh(z3.ArraySort(r.vty.args[0].sort(), r.vty.args[1].sort()), 'empty.get'))
                 ng = z3.Store(r.get, k, z3.If(z3.Select(r.has, k), z3.Select(r.get, k), empty))
-                st.cells[recv.id] = SymDict(z3.Store(r.has, k, z3.BoolVal(True)), ng, r.kty, r.vty)
+                st.cells[recv.id] = SymDict(z3.Store(r.has, k, z3.BoolVal(True)), ng, r.kty, r.vty, order=_order_after_insert(r, k))
                 return [(InnerRef(recv, k), st)]
             dz = unwrap(dflt) if not isinstance(dflt, FnV) else dflt.z
             if r.vty.kind == 'Fn': dz = self.as_fn(args[1], st)
             ng = z3.Store(r.get, k, z3.If(z3.Select(r.has, k), z3.Select(r.get, k), dz))
-            st.cells[recv.id] = SymDict(z3.Store(r.has, k, z3.BoolVal(True)), ng, r.kty, r.vty)
+            st.cells[recv.id] = SymDict(z3.Store(r.has, k, z3.BoolVal(True)), ng, r.kty, r.vty, order=_order_after_insert(r, k))
             return [(wrap(r.vty, z3.Select(ng, k)), st)]
         if isinstance(r, SymDict) and name == 'keys' and not args:
             return [(SymKeys(r), st)]
@@ -2021,6 +2082,9 @@ class CallMixin(object):
                 if i: docs.append(sepd)
                 docs.append(self.text_of(it, st))
             return Text(cat(*docs))
+        if isinstance(lst, SeqV) and lst.elem.kind == 'Str':
+            self.reg.assume('A4: sep.join(list of str) is some text (only used in messages)')
+            return Text(z3.Unit(Tok.Fld(spec_id(('s', '', None, None)), Val.VS(z3.Function('str_join', StrS, lst.z.sort(), StrS)(z3.StringVal(sep.s), lst.z)))))
         if isinstance(lst, SeqV) and lst.elem.kind == 'Text':
             j = join_fn(sepd, lst.z)
             # definition of str.join for short lists (instances for lengths 0..4)
@@ -2191,6 +2255,16 @@ class CallMixin(object):
                 else: items.append(wrap(ty_, fresh(ty_.sort(), 'res%d' % i_)))
             res_v = NTup(c.result.nt, items) if getattr(c.result, 'nt', None) is not None else Tup(items)
             res_z = [it if isinstance(it, Opt) else unwrap(it) for it in items]
+        elif c.result is not None and c.result.kind == 'Set':
+            kty_ = c.result.args[0]
+            res_z = SymSet(fresh(z3.ArraySort(self.key_sort(kty_), BoolS), 'res_%s.has' % fi.qualname.split('.')[-1]), kty_)
+            res_v = st.new_cell(res_z)
+        elif c.result is not None and c.result.kind == 'ODict':
+            kty_, vty_ = c.result.args; nm_ = 'res_' + fi.qualname.split('.')[-1]
+            res_z = SymDict(fresh(z3.ArraySort(kty_.sort(), BoolS), nm_ + '.has'), fresh(z3.ArraySort(kty_.sort(), vty_.sort()), nm_ + '.get'), kty_, vty_,
+                            order=fresh(z3.SeqSort(kty_.sort()), nm_ + '.order'))
+            st.pc += odict_wf(res_z)
+            res_v = st.new_cell(res_z)
         elif c.result is not None and c.result.kind == 'Opt':
             inner = c.result.args[0]
             res_v = Opt(fresh(BoolS, 'res?none_' + fi.qualname.split('.')[-1]), wrap(inner, fresh(inner.sort(), 'res_' + fi.qualname.split('.')[-1])))
@@ -2428,9 +2502,12 @@ class Executor(Exec, ExprMixin, StmtMixin, CallMixin):
         if k == 'Func': return FuncV(get_func(*ty.args))
         if k == 'New':
             return st.new_cell(Rec(ty.args[0], Module.get(self.reg.classes[ty.args[0]].file)))
-        if k == 'Dict':
+        if k in ('Dict', 'ODict'):
             kty, vty = ty.args
-            return SymDict(z3.Const(nm + '.has', z3.ArraySort(kty.sort(), BoolS)), z3.Const(nm + '.get', z3.ArraySort(kty.sort(), vty.sort())), kty, vty)
+            d_ = SymDict(z3.Const(nm + '.has', z3.ArraySort(kty.sort(), BoolS)), z3.Const(nm + '.get', z3.ArraySort(kty.sort(), vty.sort())), kty, vty,
+                         order=(z3.Const(nm + '.order', z3.SeqSort(kty.sort())) if k == 'ODict' else None))
+            if k == 'ODict': st.pc += odict_wf(d_)
+            return st.new_cell(d_) if nm in self.contract.modifies else d_
         return wrap(ty, z3.Const(nm, ty.sort()))
 
     def literal_input(self, pv, ty, st):
@@ -2484,6 +2561,11 @@ class Executor(Exec, ExprMixin, StmtMixin, CallMixin):
                         if isinstance(vd, NoneV): res_z = Opt(z3.BoolVal(True), wrap(inner, fresh(inner.sort(), 'none')))
                         elif isinstance(vd, Opt): res_z = vd
                         else: res_z = Opt(z3.BoolVal(False), vd)
+                    elif c.result.kind == 'Set' and isinstance(vd, SymSet): res_z = vd             # contracts read .has
+                    elif c.result.kind == 'ODict' and isinstance(vd, SymDict): res_z = vd          # contracts read .has / .get / .order
+                    elif c.result.kind == 'ODict' and isinstance(vd, PyDict) and not vd.d:
+                        kty_, vty_ = c.result.args
+                        res_z = SymDict(z3.K(kty_.sort(), z3.BoolVal(False)), fresh(z3.ArraySort(kty_.sort(), vty_.sort()), 'empty.get'), kty_, vty_, order=z3.Empty(z3.SeqSort(kty_.sort())))
                     elif c.result.kind == 'Real' and isinstance(vd, Sc): res_z = self.as_real(vd)
                     elif c.result.kind == 'Val' and isinstance(vd, (Sc, PyStr)): res_z = to_val(unwrap(vd))
                     elif c.result.kind == 'List' and isinstance(vd, (PyList, Tup)) and not vd.items: res_z = z3.Empty(c.result.sort())
